@@ -11,7 +11,7 @@ def prebuild():
 def run(ctx):
     ctx.rule = ("stateful DFS (to closure, no bound) over every interleaving of producer and consumer steps and every value an "
                 "atomic load may legally return under a view-based release/acquire/relaxed semantics, on the real "
-                "BoundedSPSCQueueImpl<T> compiled against a shim std::atomic; per configuration (integer type x capacity x reader "
+                "BoundedSPSCQueueImpl<T> compiled against a shim std::atomic; per configuration (integer type x capacity, also requested capacities that are not powers of two, x reader "
                 "publish percent x position preset just below integer wrap-around x record-size sequence); happens-before race "
                 "detection on every payload byte; states = canonical (per-thread history) state/choice pairs")
     exe = wmmlib.build()
@@ -19,9 +19,14 @@ def run(ctx):
         jobs = wmmlib.bounded_jobs(exe, ["u8"], [8, 16], [0, 5, 50, 100], [0, 1], 3)
         jobs += wmmlib.bounded_jobs(exe, ["u16", "u64"], [8], [5, 50], [0, 1], 3)
         jobs += wmmlib.bounded_jobs(exe, ["u8"], [8], [5], [1], 4)
+        # requested capacities that are not powers of two (rounded up by the constructor: mask, batch size and storage must
+        # all follow the rounded value)
+        jobs += wmmlib.bounded_jobs(exe, ["u8"], [(5, 8), (7, 8), (12, 16)], [5, 50], [0, 1], 3)
+        jobs += wmmlib.bounded_jobs(exe, ["u64"], [(6, 8)], [5], [0, 1], 3)
     else:
         jobs = wmmlib.bounded_jobs(exe, ["u8", "u16", "u64"], [8, 16, 32], [0, 5, 25, 50, 100], [0, 1], 4)
         jobs += wmmlib.bounded_jobs(exe, ["u8"], [8, 64], [5, 50], [0, 1], 5, per_proc=400)
+        jobs += wmmlib.bounded_jobs(exe, ["u8", "u16", "u64"], [(5, 8), (6, 8), (7, 8), (9, 16), (12, 16), (15, 16), (24, 32)], [0, 5, 50, 100], [0, 1], 4)
     for rr in vf.run_many(jobs):
         ctx.absorb(rr, "h_queues(bounded)")
     wmmlib.tsan_guard(ctx, "bounded")
